@@ -41,23 +41,26 @@ def run_parsers(R, tonic, comp, enabled, tag=''):
         R.saw(b)
         hb, ht = b.call1(pat='HeaderMap', name='get')
         R.eq(const_val(b.origin(ht['args'][1])), comp['headers']['encoding'], 'C05.R1', 'encoding-header-name' + tag, site(b, hb), 'header read by from_encoding_header')
-        rows = decision_rows(b, 0, writers_of(b, 0))
+        # by feasible path: the value returned at the end of the path (phis resolved along it), the token the path matched and the
+        # is_enabled tests it passed — so a token table in a helper (token -> Option<encoding>) followed by one guard is read the same
+        rows = mirlib.path_rows(b, stop=set(writers_of(b, 0)))
         seen = {}
         ident = False
         absent = False
         default_err = 0
-        for cons, bb in rows:
-            w = block_writes(b, bb, 0)
+        for cons, path in rows:
+            bb = path[-1]
+            val = mirlib.simplify(b.ret_on_path(path))
             tok, _ = token_of(cons)
-            kind, val = classify_result(b, w)
+            kind, vname = classify_val(val)
             if kind == 'some':
-                g = guards_enabled(cons)
+                g = path_guards_enabled(b, path)
                 tsub = [s for s, op, v in cons if re.search(r'\[const\(0\)\]$', s) or (op == '==' and isinstance(v, (str, bytes)))]
-                R.check(bool(tsub) and all('as_bytes' in x and 'to_str' not in x for x in tsub), 'C05.R1', 'enc:token-on-raw-bytes:%s%s' % (val, tag), site(b, bb), 'token compared on %s' % (tsub[:1],))
-                R.check(tok == encs.get(val, {}).get('token'), 'C05.R1', 'enc:token:%s%s' % (val, tag), site(b, bb), 'token %r selects %s (spec token %r)' % (tok, val, encs.get(val, {}).get('token')))
-                R.check(g.get(val) is True, 'C05.R1', 'enc:guard:%s%s' % (val, tag), site(b, bb),
-                        'row %r -> Some(%s) is guarded by is_enabled(%s)=%r; all guards on the row: %r' % (tok, val, val, g.get(val), g))
-                seen[val] = tok
+                R.check(bool(tsub) and all('as_bytes' in x and 'to_str' not in x for x in tsub), 'C05.R1', 'enc:token-on-raw-bytes:%s%s' % (vname, tag), site(b, bb), 'token compared on %s' % (tsub[:1],))
+                R.check(tok == encs.get(vname, {}).get('token'), 'C05.R1', 'enc:token:%s%s' % (vname, tag), site(b, bb), 'token %r selects %s (spec token %r)' % (tok, vname, encs.get(vname, {}).get('token')))
+                R.check(g.get(vname) is True, 'C05.R1', 'enc:guard:%s%s' % (vname, tag), site(b, bb),
+                        'row %r -> Some(%s) is guarded by is_enabled(%s)=%r; all guards on the row: %r' % (tok, vname, vname, g.get(vname), g))
+                seen[vname] = tok
             elif kind == 'none':
                 if tok == comp['identity']:
                     ident = True
@@ -72,7 +75,7 @@ def run_parsers(R, tonic, comp, enabled, tag=''):
             elif kind == 'err':
                 default_err += 1
             else:
-                R.bad('C05.R1', 'enc:shape' + tag, site(b, bb), 'unrecognised result %r' % (w,), kind='UNRECOGNISED')
+                R.bad('C05.R1', 'enc:shape' + tag, site(b, bb), 'unrecognised result %s' % show(val)[:200], kind='UNRECOGNISED')
         R.eq(sorted(seen), sorted(enabled), 'C05.R1', 'enc:rows' + tag, site(b), 'encodings selectable by grpc-encoding (features %s)' % sorted(e['feature'] for e in enabled.values()))
         R.check(ident, 'C05.R1', 'enc:identity' + tag, site(b), '"identity" -> Ok(None)')
         R.check(absent, 'C05.R1', 'enc:absent' + tag, site(b), 'absent header -> Ok(None)')
@@ -90,6 +93,16 @@ def run_parsers(R, tonic, comp, enabled, tag=''):
             if t_[0] == 'fnitem':
                 return tonic.body(re.compile('^' + re.escape(t_[1]) + '$')), t_
             raise CheckError('UNRECOGNISED: %s is neither a closure nor a function item' % show(t_)[:80])
+        def pred_is_enabled(pb_):
+            # |e| enabled_encodings.is_enabled(e): the receiver is the enabled-set parameter of the parser (through captures), the
+            # argument is the closure's own parameter
+            prt = mirlib.returned_terms(pb_)
+            if len(prt) == 1 and is_call(strip_refs(prt[0][1]), name='is_enabled'):
+                ie = strip_refs(prt[0][1])
+                recv = resolve_env(tonic, pb_, ie[2][0])
+                en_n = param_of_type(b, r'EnabledCompressionEncodings$')
+                return arg_root(strip_refs(recv)) == en_n and arg_root(strip_refs(ie[2][1])) == 2
+            return False
         fm = b.calls(name='find_map')
         seen = {}
         if fm:
@@ -109,33 +122,36 @@ def run_parsers(R, tonic, comp, enabled, tag=''):
             cb, clo = fn_body(fmc[2][1])
             pb, pclo = fn_body(b.origin(ft['args'][1]))
             R.saw(pb)
-            prt = mirlib.returned_terms(pb)
-            okp = False
-            if len(prt) == 1 and is_call(strip_refs(prt[0][1]), name='is_enabled'):
-                ie = strip_refs(prt[0][1])
-                recv = resolve_env(tonic, pb, ie[2][0])
-                en_n = param_of_type(b, r'EnabledCompressionEncodings$')
-                okp = arg_root(strip_refs(recv)) == en_n and arg_root(strip_refs(ie[2][1])) == 2
+            okp = pred_is_enabled(pb)
             R.check(okp, 'C05.R1', 'accept:find-predicate' + tag, site(pb), 'find predicate = |e| enabled_encodings.is_enabled(e) on the candidate itself: %r' % okp)
             pred_guard = okp
         R.check(mentions_call(src, name='split_by_comma') and mentions_call(src, name='to_str'), 'C05.R1', 'accept:iterates-header' + tag, site(b, fb), 'iterates %s' % show(src)[:200])
         R.saw(cb)
-        rows = decision_rows(cb, 0, writers_of(cb, 0))
-        for cons, bb in rows:
-            w = block_writes(cb, bb, 0)
+        rows = mirlib.path_rows(cb, stop=set(writers_of(cb, 0)))
+        for cons, path in rows:
+            bb = path[-1]
+            rv = strip_refs(mirlib.simplify(cb.ret_on_path(path)))
+            row_pred = None
+            if is_call(rv, name='filter') and 'Option' in rv[1] and len(rv[2]) == 2:
+                # candidate.filter(|&e| enabled.is_enabled(e)): the candidate is kept only if the predicate holds
+                fpb, _ = fn_body(rv[2][1])
+                R.saw(fpb)
+                row_pred = pred_is_enabled(fpb)
+                R.check(row_pred, 'C05.R1', 'accept:filter-predicate' + tag, site(fpb), 'filter predicate = |e| enabled_encodings.is_enabled(e) on the candidate itself: %r' % row_pred)
+                rv = strip_refs(rv[2][0])
             tok, _ = token_of(cons)
-            kind, val = classify_result(cb, w, opt_only=True)
+            kind, val = classify_val(rv, opt_only=True)
             if kind == 'some':
-                g = guards_enabled(cons)
+                g = path_guards_enabled(cb, path)
                 R.check(tok == encs.get(val, {}).get('token'), 'C05.R1', 'accept:token:%s%s' % (val, tag), site(cb, bb), 'token %r selects %s (spec token %r)' % (tok, val, encs.get(val, {}).get('token')))
-                R.check(g.get(val) is True or pred_guard is True, 'C05.R1', 'accept:guard:%s%s' % (val, tag), site(cb, bb),
-                        'row %r -> Some(%s) must be guarded by is_enabled(send-enabled set, %s); guards on the row: %r; find predicate: %r '
-                        '(unguarded: a server configured to send only gzip answers "grpc-accept-encoding: zstd,gzip" with zstd)' % (tok, val, val, g, pred_guard))
+                R.check(g.get(val) is True or pred_guard is True or row_pred is True, 'C05.R1', 'accept:guard:%s%s' % (val, tag), site(cb, bb),
+                        'row %r -> Some(%s) must be guarded by is_enabled(send-enabled set, %s); guards on the row: %r; find/filter predicate: %r '
+                        '(unguarded: a server configured to send only gzip answers "grpc-accept-encoding: zstd,gzip" with zstd)' % (tok, val, val, g, pred_guard or row_pred))
                 seen[val] = tok
             elif kind == 'none':
                 pass
             else:
-                R.bad('C05.R1', 'accept:shape' + tag, site(cb, bb), 'unrecognised result %r' % (w,), kind='UNRECOGNISED')
+                R.bad('C05.R1', 'accept:shape' + tag, site(cb, bb), 'unrecognised result %s' % show(rv)[:200], kind='UNRECOGNISED')
         R.eq(sorted(seen), sorted(enabled), 'C05.R1', 'accept:rows' + tag, site(cb), 'encodings selectable by grpc-accept-encoding')
         # the guard's receiver is the enabled_encodings parameter (captured)
         for bb, t in cb.calls(name='is_enabled'):
@@ -261,7 +277,7 @@ def run_parsers(R, tonic, comp, enabled, tag=''):
         R.saw(b)
         gb, gt = b.call1(name='get_u8')
         fterm = b.origin({'cp': gt['dest']})
-        fsub = show(strip_casts(fterm))
+        fsub = show(strip_casts(mirlib.simplify(fterm)))
         errs = [(bb, i, ops) for bb, i, p, a, ops in mirlib.aggregates(b, 'result::Result', 'Err')]
         rb = [x for x in mirlib.aggregates(b, 'decode::State', 'ReadBody')]
         R.check(len(rb) == 1, 'C05.R6', 'readbody-site' + tag, site(b), 'State::ReadBody constructions: %d' % len(rb))
@@ -421,6 +437,52 @@ def classify_result(b, w, opt_only=False):
     return None, None
 
 
+def classify_val(val, opt_only=False):
+    """classify a returned value term: ('some', Variant) | ('none', None) | ('err', None) | (None, None)"""
+    x = strip_refs(val)
+    if not (x and x[0] == 'agg'):
+        return None, None
+    name = x[1].get('variant')
+    def enc_of(t_):
+        t_ = strip_refs(t_)
+        if t_ and t_[0] == 'agg' and (t_[1].get('adt') or '').endswith('CompressionEncoding'):
+            return t_[1].get('variant')
+        return None
+    if name == 'None':
+        return 'none', None
+    if name == 'Some' and opt_only:
+        e = enc_of(x[2][0])
+        return ('some', e) if e else (None, None)
+    if name == 'Ok':
+        inner = strip_refs(x[2][0])
+        if inner and inner[0] == 'agg' and inner[1].get('variant') == 'None':
+            return 'none', None
+        if inner and inner[0] == 'agg' and inner[1].get('variant') == 'Some':
+            e = enc_of(inner[2][0])
+            return ('some', e) if e else (None, None)
+        return None, None
+    if name == 'Err':
+        return 'err', None
+    return None, None
+
+
+def path_guards_enabled(b, path):
+    """{Variant: True/False} for the is_enabled(set, Variant) tests passed on this path (their operand as seen on the path)"""
+    out = {}
+    for bb, tm, vals in b.path_tests(path):
+        c = strip_refs(tm)
+        if is_call(c, name='is_enabled') and len(c[2]) >= 2:
+            e = strip_refs(c[2][1])
+            if e and e[0] == 'agg' and (e[1].get('adt') or '').endswith('CompressionEncoding'):
+                truth = None
+                if vals == [0]:
+                    truth = False
+                elif 0 not in vals:
+                    truth = True
+                out[e[1].get('variant')] = truth
+    return out
+
+
 def guards_enabled(cons):
     """{Variant: True/False} for is_enabled(.., Variant{}) tests on a row"""
     out = {}
@@ -442,6 +504,11 @@ def run_plumbing(R, tonic, comp, enabled):
     with R.guard('C05.R4'):
         handlers = ['unary', 'server_streaming', 'client_streaming', 'streaming']
         n = 0
+        mr = tonic.body('server::grpc::Grpc::<T>::map_response')
+        R.saw(mr)
+        # the response-encoding parameter of map_response, by type (not by name or position)
+        enc_n = param_of_type(mr, r'Option<.*CompressionEncoding>')
+        is_enc_param = lambda t_: (lambda x: x[0] == 'arg' and x[1] == enc_n)(strip_refs(t_))
         for h in handlers:
             co = tonic.body('server::grpc::Grpc::<T>::%s::{closure#0}' % h)
             R.saw(co)
@@ -460,21 +527,20 @@ def run_plumbing(R, tonic, comp, enabled):
             R.check(len(mrs) >= 1, 'C05.R4', 'srv:%s:map_response' % h, site(co), 'map_response sites: %d' % len(mrs))
             for mb, mt in mrs:
                 n += 1
-                R.check(mirlib.root_local(co, mt['args'][2]) == acc_local, 'C05.R4', 'srv:%s:accept-encoding-flows' % h, site(co, mb), 'accept_encoding argument = %s' % show(co.origin(mt['args'][2]))[:120])
+                R.check(mirlib.root_local(co, mt['args'][enc_n - 1]) == acc_local, 'C05.R4', 'srv:%s:accept-encoding-flows' % h, site(co, mb), 'accept_encoding argument = %s' % show(co.origin(mt['args'][enc_n - 1]))[:120])
         R.floor('C05.R4', 'map_response call sites', n, 4)
-        mr = tonic.body('server::grpc::Grpc::<T>::map_response')
-        R.saw(mr)
         nb, nt = mr.call1(name='new_server')
-        enc_arg = mr.origin(nt['args'][2])
-        R.check(enc_arg[0] == 'arg' and enc_arg[2] == 'accept_encoding', 'C05.R4', 'map_response:encoder-gets-accept_encoding', site(mr, nb), 'EncodeBody::new_server encoding argument = %s' % show(enc_arg))
+        ns_ = tonic.body('codec::encode::EncodeBody::<T, U>::new_server')
+        enc_arg = mr.origin(nt['args'][param_of_type(ns_, r'Option<.*CompressionEncoding>') - 1])
+        R.check(is_enc_param(enc_arg), 'C05.R4', 'map_response:encoder-gets-accept_encoding', site(mr, nb), 'EncodeBody::new_server encoding argument = %s' % show(enc_arg))
         ins = [(bb, t) for bb, t in mr.calls(name='insert') if const_val(mr.origin(t['args'][1])) == comp['headers']['encoding'] or (constdef(mr.origin(t['args'][1])) or '').endswith('ENCODING_HEADER')]
         if enabled:
             R.check(len(ins) == 1, 'C05.R4', 'map_response:announces', site(mr), 'grpc-encoding insert sites: %d' % len(ins))
             for bb, t in ins:
                 v = mr.origin(t['args'][2])
-                R.check(is_call(v, name='into_header_value') and 'accept_encoding' in show(v), 'C05.R4', 'map_response:announced=used', site(mr, bb), 'header value = %s' % show(v))
+                R.check(is_call(v, name='into_header_value') and term_contains(v[2][0], lambda x: isinstance(x, tuple) and x and x[0] == 'arg' and x[1] == enc_n), 'C05.R4', 'map_response:announced=used', site(mr, bb), 'header value = %s' % show(v))
                 g = mr.edge_guards(bb)
-                R.check(any('discr(' in show(tm) and 'accept_encoding' in show(tm) and vals == [1] for s, vals, tm in g), 'C05.R4', 'map_response:announce-iff-some', site(mr, bb),
+                R.check(any(tm and tm[0] == 'discr' and is_enc_param(tm[1]) and vals == [1] for s, vals, tm in g), 'C05.R4', 'map_response:announce-iff-some', site(mr, bb),
                         'guards = %r' % [(v_, show(tm)) for s, v_, tm in g])
         else:
             R.check(len(ins) == 0, 'C05.R4', 'map_response:no-announce-without-features', site(mr), 'grpc-encoding insert sites: %d' % len(ins))
